@@ -1,3 +1,3 @@
 import Driver.Loop
-/- stub: no executable model for C17 yet -/
-def main : IO UInt32 := CelerVerif.runDriver (fun (s : Unit) _ => (s, "bad-op")) ()
+import CelerVerif.Model.GatherDriver
+def main : IO UInt32 := CelerVerif.runDriver CelerVerif.Gather.driverStep default
